@@ -72,7 +72,7 @@ def _job(args):
                 depth_max = max(len(x) for x in list(dirs) + list(files)) - len(mp)
                 enc = rules.Enc()
                 cases, metas = [], []
-                for k in range(1, max(1, depth_max) + 1):
+                for k in range(0, max(1, depth_max) + 1):       # 0: everything collapses into module_path itself
                     lim = scan.real_scan(base, root, mp, level_limit=k, **opts)
                     out["n"] += 1
                     case = dict(dirs=[list(d) for d in dirs], files={scan.dotted(f): (scan.render_v(v) if v["py"] else None) for f, v in files.items()},
